@@ -32,6 +32,11 @@ let variant_of (v : t) : Dot.variant =
   match v with
   | Atom "pinned" -> Dot.pinned
   | Atom "patched" -> Dot.patched
+  (* (v esc subacc dead0 rxesc): each flag true = patched behaviour for that mechanism only *)
+  | List [Atom "v"; Atom e; Atom sa; Atom d0; Atom rx] ->
+      { Dot.v_escape = (if e = "true" then Dot.escape_dot else Dot.escape_quotes);
+        v_subacc = (sa = "true"); v_dead0 = not (d0 = "true");
+        v_rx_escape = (if rx = "true" then Dot.escape_dot else (fun x -> x)) }
   | v -> raise (Shape ("variant: " ^ to_string v))
 
 let rinput_of (v : t) : Dot.rinput =
@@ -155,5 +160,55 @@ let () =
                if missing = [] && g.DotRead.g_directed then List [Atom "ok"]
                else List (Atom "missing" :: List.map (fun (c, l) -> List [sos_ c; ss l]) missing))
       | _ -> raise (Shape "dotjudgeregex args"))
+
+(* judge a text the model itself produced under a variant *)
+let judge_dfa_text base c (text : (unit, char list) Prelude.outcome) : t =
+  match text with
+  | Prelude.Ok s ->
+      (match DotRead.read s with
+       | None -> Atom "readfail"
+       | Some g ->
+           if DotSpec.gdiff_ok (DotSpec.compare (DotSpec.view g) (DotSpec.graph_of_dfa base c)) then Atom "ok"
+           else Atom "diff")
+  | _ -> Atom "nomodel"
+
+let () =
+  (* dotclassdfa <base> <dfa> -> (known labels subacc phantom) (fix esc) (fix subacc) (fix both) *)
+  register "dotclassdfa" (fun v ->
+      match v with
+      | List [base; d] ->
+          let base = n_ base and c = cdfa_of d in
+          let var e sa = { Dot.v_escape = (if e then Dot.escape_dot else Dot.escape_quotes); v_subacc = sa;
+                           v_dead0 = true; v_rx_escape = (fun x -> x) } in
+          let j e sa = judge_dfa_text base c (Dot.of_dfa_with (var e sa) base c) in
+          List [List [Atom "known"; b (Dot.known_labels c); b (Dot.known_subacc base c); b (Dot.known_phantom c)];
+                List [Atom "pinned"; j false false]; List [Atom "esc"; j true false];
+                List [Atom "subacc"; j false true]; List [Atom "both"; j true true]]
+      | _ -> raise (Shape "dotclassdfa args"));
+  (* dotclassregex <payload> -> (known b) (pinned r) (fixed r) *)
+  register "dotclassregex" (fun v ->
+      match v with
+      | List [payload] ->
+          let (pool, r) = regex_payload payload in
+          let items (x : Dot.regex) = List.map ritem_of x.Dot.r_inputs in
+          let j var =
+            match Dot.of_regex_with var pool r with
+            | Prelude.Ok s ->
+                (match DotRead.read s with
+                 | None -> Atom "readfail"
+                 | Some g ->
+                     if DotSpec.regex_missing g (List.map (fun (i, x) -> (i, items x)) pool) (items r) = []
+                        && g.DotRead.g_directed then Atom "ok" else Atom "missing")
+            | _ -> Atom "nomodel" in
+          List [List [Atom "known"; b (Dot.known_rx pool r)]; List [Atom "pinned"; j Dot.pinned];
+                List [Atom "fixed"; j Dot.patched]]
+      | _ -> raise (Shape "dotclassregex args"));
+  (* dotsubids <base> <dfa> -> ((poolidx id)...) : the prescribed numbering of the clusters *)
+  register "dotsubids" (fun v ->
+      match v with
+      | List [base; d] ->
+          let c = cdfa_of d in
+          List (List.map (fun (k, i) -> List [sn k; sn i]) (DotSpec.sub_ids (n_ base) c.Dfa.c_main))
+      | _ -> raise (Shape "dotsubids args"))
 
 let linked = ()
